@@ -353,6 +353,20 @@ fn filter_programs() -> Vec<(String, Option<i32>)> {
             v.push((format!("@ true {{ {} {} }}\n", a, b), None));
         }
     }
+    // filters inside functions that use the function's locals / parameters; failing filters followed by others and by end
+    for p in [
+        "fn g() { let x = 5; @ x > 0 { eprintln(\"{}\", x); } } g();",
+        "fn g(p) { @ true { eprintln(\"{}\", p); } } g(1);",
+        "fn g(p) { let q = p; let h = fn() { @ q > 0 }; h(); } g(1);",
+        "fn g(p) { { let q = p; @ NP > q } } g(1);",
+        "let y = 1; fn g(p) { @ y > 0 { let z = 2; eprintln(\"{}\", y + z); } } g(1);",
+        "fn r() { r() }\n@ true { r(); }\n@ end { eprintln(\"e\"); }",
+        "fn r(n) { 1 + r(n + 1) }\n@ r(0) > 0\n@ true\n@ end { let a = 1; eprintln(\"{}\", a); }",
+        "@ true { [1][5]; }\n@ true { let b = 2; }\n@ end { let a = 1; eprintln(\"{}\", a); }",
+        "@ NP == 2 { fn r() { r() } r(); }\n@ true\n@ end { eprintln(\"e\"); }",
+    ] {
+        v.push((format!("{}\n", p), None));
+    }
     // the main program fails, filters with locals follow
     for pre in ["fn f() { f() } f();", "fn f(n) { 1 + f(n + 1) } f(0);", "[1][9];", "let a = [1, 2, 3]; a[5] = 1;", "undefined_name;"] {
         v.push((format!("{}\n@ true {{ let a = 1; let b = [a, a]; eprintln(\"{{}}\", b); }}\n@ NP > 1\n@ end {{ let c = 2; eprintln(\"{{}}\", c); }}\n", pre), None));
@@ -417,6 +431,40 @@ fn filters(ctx: &mut Ctx) {
             }
             if want.is_none() && r.code != Some(0) && code.is_none() {
                 ctx.report(Violation::new("filters", "exit-status:unrequested", format!("exit status {:?} without exit()\n{}\nstderr: {}", r.code, src, r.err_text()), case));
+            }
+        }
+    }
+    // packet input: a stream of frames of every stack, each also cut at many lengths, read at every depth and
+    // written out again (accessors on cut headers, cached layers and the serialisers must not crash)
+    if ctx.shard == 2 % e2e_shards {
+        use super::super::choices::Choices;
+        use super::super::frames::stack_frame;
+        let mut recs = Vec::new();
+        for stack in 0..8u8 {
+            for k in 0..3u64 {
+                let fb = fill(mix64(stack as u64 * 31 + k + ctx.seed), 400);
+                let mut fc = Choices::new(&fb);
+                let frame = stack_frame(&mut fc, stack);
+                let step = if ctx.tier == Tier::Quick { 3 } else { 1 };
+                let mut cut = frame.len();
+                loop {
+                    recs.push(Rec { sec: cut as u32, usec: stack as u32, wirelen: frame.len() as u32, data: frame[..cut].to_vec() });
+                    if cut < 10 {
+                        break;
+                    }
+                    cut -= step.min(cut);
+                }
+            }
+        }
+        let n = recs.len();
+        let f = PcapFile { hdr: GHdr { magic: MAGIC_US, major: 2, minor: 4, thiszone: 0, sigfigs: 0, snaplen: 65535, linktype: 1 }, recs };
+        let input = f.bytes();
+        for (k, prog) in ["@ { $1; $2; $3; $4; $5; $6; }\n@ true\n", "@ { $6; $5; $4; $3; $2; $1; str($3); str($4); }\n@ true\n", "@ { let a = [$1, $2, $3, $4]; let s = str(a); }\n@ true\n@ end { eprintln(\"{}\", NP); }\n", "@ { $3; }\n@ true\n@ { $4; $2; }\n@ true\n"].iter().enumerate() {
+            ctx.case(hash_str(prog) ^ n as u64, true);
+            ctx.class("packet-stream");
+            let r = e2e::run(Opts::new(vec![e2e::script_file("c08-pkt.p2", prog)]).stdin(Stdin::Bytes(input.clone())));
+            if let Some(c) = r.crashed() {
+                ctx.report(Violation::new("filters", e2e::crash_signature(&c), format!("{} packets of all stacks, cut at many lengths: {}\n{}", n, c, prog), json!({"packet_stream": k, "src": prog})));
             }
         }
     }
@@ -492,6 +540,10 @@ pub fn replay(section: &str, case: &Value, ctx: &mut Ctx) {
         return;
     }
     let src = case["src"].as_str().unwrap_or("");
+    if case.get("packet_stream").is_some() {
+        // the stream is rebuilt by the section itself on every run; nothing to replay separately
+        return;
+    }
     if case.get("selfref").is_some() {
         let r = e2e::run(Opts::new(vec![e2e::script_file("c08-selfref.p2", src)]));
         if let Some(c) = r.crashed() {
